@@ -3,7 +3,7 @@ from propslib import fn_scope
 
 PROP = dict(
     extract=["editor"],
-    lean_targets=["Chewing.Props.C06"],
+    lean_targets=["Chewing.Props.C06", "Chewing.Props.C06Layouts"],
     runs=[dict(bin="editor"), dict(bin="editor", args=["--script", "c06"], tag="editor-c06-sweep"),
           dict(bin="capi_props", tag="capi_props", args=["--histories", "300", "--calls", "40"], args_thorough=["--histories", "6000", "--calls", "40"])],
     scope=fn_scope("ed key"),
@@ -73,7 +73,13 @@ MANIFEST = dict(
          "does not protect: BellKeepsPhoneticAnyLayout (a bell never changes it, whatever the layout) is REFUTED over the model's "
          "arbitrary environment (bell_keeps_phonetic_anyLayout_refuted: a layout that answers key error and moves on - the editor "
          "keeps that state), proved exactly under LayoutQuietAt (bell_keeps_phonetic: the layout does not change state on the key "
-         "it rejects) and unconditionally outside the layout arms (bell_keeps_phonetic_of_not_asked); the shipped layouts are "
+         "it rejects) and unconditionally outside the layout arms (bell_keeps_phonetic_of_not_asked); the premise is "
+         "DISCHARGED for the seven one-syllable layout models of C14 (Proofs/LayoutQuiet.lean: PressQuiet of tablePress for ANY "
+         "table, hsuPress, et26Press, dc26Press - a key answered key error / no word returns the state it was given, no layout "
+         "commits from the empty buffer - and of the trait's default fuzzy_key_press; Props/C06Layouts.lean: layout_models_quiet, "
+         "bell_keeps_phonetic_layout_models / _by_name: over layoutEnv L base a bell leaves the phonetic buffer as it was in "
+         "EnteringSyllable, Selecting, Highlighting, and in Entering with an empty phonetic buffer); Pinyin (own model) is not "
+         "covered by that proof; all shipped layouts incl. Pinyin are "
          "checked against LayoutQuietAt by the oracle on every bell step (no violation: no finding). Non-vacuity examples for every "
          "state kind that can bell (Entering key without character; EnteringSyllable rejected key; open list on page 1 of 3 with "
          "Shift-j and with a digit beyond the list; Ctrl-2 with notification). Oracle for a bell = the theorem's notion: state "
